@@ -194,7 +194,10 @@ class SimpleMultiFilePersistentFixedLengthBytesArray(collections.abc.Sequence):
         if index >= len(self) or index < -len(self):
             raise IndexError("Array index out of range")
 
-        ret = self._get_bytes_by_index(index)
+        # a negative index counts from the end (same normalisation as in __setitem__); the raw value must not
+        # reach the (file, offset) arithmetic, which is only defined for 0 <= index < len
+        actual_index = index % len(self)
+        ret = self._get_bytes_by_index(actual_index)
         return ret
 
     def __setitem__(self,
